@@ -1,7 +1,8 @@
 """C01 - commit is atomic and durable across a crash at any instant.
 M: MC_Storage: the commit/merge/GC protocol step by step with a crash at every boundary, power
    set of un-synced items, linear characterisation lemma; negative configurations (no sync
-   after / before the meta.json rename, GC before the rename) must fail.
+   after / before the meta.json rename, GC before the rename) must fail.  StorageProto: the same
+   protocol as interleaved builder / updater / GC processes with delete files and merges.
 T: every storage operation of real runs on SimDirectory drives Storage.tla; CrashSafe and
    CrashDurable are evaluated after every event (= at every crash point, all images).
 R: crash images materialised at the boundaries, recovered with the real code
@@ -32,6 +33,11 @@ def run(ctx):
     vlib.mc_check(ctx, "MC_Storage", "MC_Storage_negF2.cfg", expect_violation="CrashSafe", timeout=120, workers=2)
     vlib.mc_check(ctx, "MC_Storage", "MC_Storage_negPre.cfg", expect_violation="CrashSafe", timeout=120, workers=2)
     vlib.mc_check(ctx, "MC_Storage", "MC_Storage_negGc.cfg", expect_violation="CrashSafe", timeout=120, workers=2)
+    # the same protocol as interleaved processes (builder / updater / GC), every interleaving, every crash image
+    vlib.mc_check(ctx, "StorageProto", "StorageProto_code.cfg" if ctx.quick else "StorageProto_deep.cfg", timeout=900, workers=4 if ctx.quick else 8)
+    vlib.mc_check(ctx, "StorageProto", "StorageProto_negS2.cfg", expect_violation="CrashSafe", timeout=120, workers=2)
+    vlib.mc_check(ctx, "StorageProto", "StorageProto_negS9.cfg", expect_violation="CrashSafe", timeout=120, workers=2)
+    vlib.mc_check(ctx, "StorageProto", "StorageProto_negF1.cfg", expect_violation="CrashDurable", timeout=120, workers=2)
 
     # T: storage traces of real runs, every crash point
     ev = sc.record_histories(ctx, "fixed", sc.fixed_histories())
